@@ -354,7 +354,7 @@ def write_crate(cfg, mods, active):
             offsets[i] = (line, line + m.count('\n'))
             src.append(m.rstrip('\n'))
             line += m.count('\n')
-    src.append('fn main() {\n    std::panic::set_hook(Box::new(|_| {}));')
+    src.append('fn main() {\n    std::panic::set_hook(Box::new(|i| { eprintln!("PANICMSG {}", i.to_string().replace("\\n", " ")); }));')
     for i in sorted(active):
         src.append('    if let Err(e) = std::panic::catch_unwind(|| m%d::run()) { prelude::emit(format!("PANIC|%d|{}", '
                    'e.downcast_ref::<String>().cloned().or_else(|| e.downcast_ref::<&str>().map(|s| s.to_string())).unwrap_or_default().replace("\\n", " "))); }' % (i, i))
@@ -435,7 +435,9 @@ def build_run(cfg, mods):
         if last is None:
             return errors, None, r.stderr[-2000:], crashes
         # the process died while running query last[1] + 1 of item last[0]
-        crashes[last[0]] = (last[1] + 1, r.stderr[-400:])
+        err = r.stderr
+        cut = max(err.rfind('unsafe precondition'), err.rfind('PANICMSG'))
+        crashes[last[0]] = (last[1] + 1, ('exit status %s: ' % r.returncode) + (err[cut:cut + 400] if cut >= 0 else err[-400:]))
         active.discard(last[0])
         for k in [k for k in out if k[0] == last[0]]:
             del out[k]
@@ -668,7 +670,7 @@ def run_b(cfg, named_items, hostile=False):
             report['failures'].append(dict(name=name, source=it.rust(), config=cfg, operation=q[0],
                                            operands=[enc(x) for x in q[1:] if x is not None],
                                            expected=['the operation returns (no abort, no panic)'],
-                                           observed=['process died: ' + msg.replace('\n', ' ')[-300:]], spec='terminates'))
+                                           observed=['process died: ' + msg.replace('\n', ' ')[:400]], spec='terminates'))
             continue
         want = getattr(it, 'expect_error', None)
         if want:
